@@ -794,9 +794,10 @@ def norm_comp(c):
             if not whole and keyed:
                 c = ("comp", kind, lid, d[3]) + subst((key, val, conds), m)
                 continue
-        if it[0] == "comp" and it[1] in ("gen", "list") and it[4] is None and not it[6] and it[5][0] != "flat" and \
+        if it[0] == "comp" and it[1] == "gen" and it[4] is None and not it[6] and it[5][0] != "flat" and \
                 not (isinstance(val, tuple) and val and val[0] == "flat"):
-            # a comprehension over a mapped sequence maps the composition over the source
+            # a comprehension over a lazily mapped sequence (a generator has this one consumer) maps the composition
+            # over the source
             inner = relabel_loop(subst(it[5], {("elem", it[2]): el}), it[2], lid)
             c = ("comp", kind, lid, it[3]) + subst((key, val, conds), {el: inner})
             continue
